@@ -44,12 +44,12 @@ def measure_budget(adapter, op, payload, root):
     return best
 
 
-def run_one(adapter, op, script, payload, root, tag, persistent=None):
+def run_one(adapter, op, script, payload, root, tag, persistent=None, bulk=0):
     if adapter == 'local':
         d = os.path.join(str(root), 'l%s' % tag)
         os.makedirs(d, exist_ok=True)
         return faults.run_local(op, script, payload, d, persistent=bool(persistent))
-    return faults.run_remote(adapter, op, script, payload, persistent=persistent)
+    return faults.run_remote(adapter, op, script, payload, persistent=persistent, bulk=bulk)
 
 
 def main(run):
@@ -107,6 +107,13 @@ def main(run):
                     events.append(dict(o, adapter=adapter, op=op, script=[['*', 0, kind]], nfaults=999, persistent=True, budget=budget, predicted='error'))
                     run.case((adapter, op, 'persistent', kind))
                 run.coverage.setdefault('measured_budgets', {})['%s.%s' % (adapter, op)] = measured
+        # listings whose pages are large (hundreds of kilobytes) and break in mid-body: after the retry every name appears exactly once
+        for adapter in ('s3', 'b2'):
+            for script in ([(1, 1, 'io')], [(1, 2, 'io')], [(1, 3, 'io')], [(1, 2, 'io'), (2, 3, 'io')], [(2, 3, 'io')]):
+                o = run_one(adapter, 'list', script, payload, root, 'biglist', bulk=1500)
+                events.append(dict(o, adapter=adapter, op='list', script=[list(x) for x in script], nfaults=len(script), persistent=False,
+                                   budget=max(len(script), 1), predicted='~'))
+                run.case((adapter, 'list-large-page', tuple(script)))
     traces = [{'events': events}]
 
     def on_reject(t, idx, clause):
